@@ -7,6 +7,7 @@ HARNESS_TARGET = os.path.join(CACHE, "harness-target")
 HARNESS_BIN = os.path.join(HARNESS_TARGET, "debug", "harness")
 DRIVER_BIN = os.path.join(VERIF, "ocaml", "_build", "default", "driver.exe")
 GUARD_FLAGS = "--cfg suiron_verif --check-cfg cfg(suiron_verif)"
+MAX_CRASHES_PER_CHUNK = 12
 
 def env_offline():
     e = dict(os.environ)
@@ -54,7 +55,13 @@ def _run_impl_chunk(lines, per_chunk_timeout):
         with open(cf, "w") as f:
             f.write("\n".join(lines) + "\n")
         start = 0
+        crashes = 0
         while start < n:
+            if crashes >= MAX_CRASHES_PER_CHUNK:
+                # a tree on which this many cases kill the process has been shown broken already;
+                # the rest of the chunk is not run (and not compared)
+                results.extend([("", "skipped")] * (n - start))
+                break
             try:
                 p = subprocess.run([HARNESS_BIN, cf, "--start", str(start)],
                                    stdout=subprocess.PIPE, stderr=subprocess.DEVNULL,
@@ -68,6 +75,7 @@ def _run_impl_chunk(lines, per_chunk_timeout):
                 if res is None:
                     results.append((out, "diverged"))
                     done += 1
+                    crashes += 1
                     break
                 results.append((out, res))
                 done += 1
@@ -75,6 +83,7 @@ def _run_impl_chunk(lines, per_chunk_timeout):
                 # the process died before printing anything for case `start`
                 results.append(("", "diverged"))
                 done = 1
+                crashes += 1
             start += done
     return results[:n]
 
